@@ -222,3 +222,50 @@ def FILES_ALL(root):
         for f in fnames:
             if f.endswith(".py"): res.append(os.path.relpath(os.path.join(dp, f), root))
     return sorted(res)
+
+def r_sharedbase(root):
+    """C16.j  the base-type expressions (ID, BOOL, INT, FLOAT, STRICTFLOAT, STRING, NUMBER, BASETYPE, OBJECT) are module-level
+    objects of lang.py shared by every meta-model of the process: no function of the package writes an attribute of one of
+    them or calls a method that changes it (compile, and the list methods of .nodes), whatever name it was imported under.
+    Expected count on this tree: 0 writes; a built-in fixture keeps the rule honest."""
+    import ast
+    out = []; inst = 0
+    BASES = {"ID", "BOOL", "INT", "FLOAT", "STRICTFLOAT", "STRING", "NUMBER", "BASETYPE", "OBJECT"}
+    MUT = {"compile", "append", "extend", "insert", "remove", "pop", "clear", "sort", "reverse", "update", "setdefault", "__setattr__"}
+    def scan(tree, is_lang):
+        res = []; names = {}
+        for n in ast.walk(tree):
+            if isinstance(n, ast.ImportFrom) and n.module and n.module.split(".")[-1] == "lang":
+                for a in n.names:
+                    if a.name in BASES: names[a.asname or a.name] = a.name
+        if is_lang: names.update({b: b for b in BASES})
+        def root_name(e):
+            while isinstance(e, (ast.Attribute, ast.Subscript)): e = e.value
+            return e.id if isinstance(e, ast.Name) else None
+        for fn in [x for x in ast.walk(tree) if isinstance(x, (ast.FunctionDef, ast.AsyncFunctionDef))]:
+            def bound(tg):
+                if isinstance(tg, ast.Name): return {tg.id}
+                if isinstance(tg, (ast.Tuple, ast.List)): return set().union(*[bound(e) for e in tg.elts]) if tg.elts else set()
+                if isinstance(tg, ast.Starred): return bound(tg.value)
+                return set()
+            local = {a.arg for a in fn.args.args + fn.args.kwonlyargs}
+            for x in ast.walk(fn):
+                for tg in (x.targets if isinstance(x, ast.Assign) else ([x.target] if isinstance(x, (ast.For, ast.AnnAssign, ast.comprehension)) else [])): local |= bound(tg)
+            for n in ast.walk(fn):
+                tgts = n.targets if isinstance(n, ast.Assign) else ([n.target] if isinstance(n, (ast.AugAssign, ast.AnnAssign)) else [])
+                for tg in tgts:
+                    if isinstance(tg, (ast.Attribute, ast.Subscript)) and root_name(tg) in names and root_name(tg) not in local: res.append((n, fn, "writes %s" % ast.unparse(tg)))
+                if isinstance(n, ast.Call) and isinstance(n.func, ast.Attribute) and n.func.attr in MUT and root_name(n.func.value) in names and root_name(n.func.value) not in local: res.append((n, fn, "calls %s" % ast.unparse(n.func)))
+                if isinstance(n, ast.Call) and isinstance(n.func, ast.Name) and n.func.id == "setattr" and n.args and root_name(n.args[0]) in names and root_name(n.args[0]) not in local: res.append((n, fn, "setattr on %s" % ast.unparse(n.args[0])))
+        return res
+    fx = ast.parse("from textx.lang import BOOL, ID as IDENT\ndef f(self):\n    BOOL.ignore_case = True\n    BOOL.compile()\n    IDENT.nodes.append(1)\n    x = BOOL.to_match\n    INT = 3\n")
+    if sorted(w for _n, _f, w in scan(fx, False)) != ["calls BOOL.compile", "calls IDENT.nodes.append", "writes BOOL.ignore_case"]: raise AnalysisError("shared base types rule: the built-in positive example is classified %s" % [w for _n, _f, w in scan(fx, False)])
+    for rel in FILES_ALL(root):
+        t = load(root, rel); inst += 1
+        for n, fn, what in scan(t, rel.endswith("textx/lang.py")):
+            inst += 1
+            for pr in ("C16", "C20", "C04"):
+                ob(pr, "C16.j", rel, qualname(fn), " ".join(ast.unparse(n).split())[:80], False)
+                out.append(Finding(pr, "C16.j", rel, qualname(fn), " ".join(ast.unparse(n).split())[:90], "%s %s: the base-type expressions are module-level objects shared by every meta-model of the process - a change made while one meta-model is built (its case handling, its pattern) is seen by all meta-models built before and after" % (qualname(fn), what), witness="metamodel_from_str(g, ignore_case=True) and then metamodel_from_str(g) in the same process: BOOL of the second one"))
+    for pr in ("C16", "C20", "C04"): ob(pr, "C16.j", "textx/", "package", "no function writes to a shared base-type expression (%d files)" % inst, not out)
+    return max(inst, 1), out
